@@ -124,6 +124,7 @@ pub fn build<D: Store>(d: &mut D, t: &Term) -> Result<usize, String> {
                 "b" => d.add_byte(atom(&items[1])?.parse::<u8>().map_err(|_| "bad byte")?).map_err(de),
                 "s" => d.add_symbol(atom(&items[1])?.parse::<u64>().map_err(|_| "bad sym")?).map_err(de),
                 "e" => d.add_expression(atom(&items[1])?.parse::<usize>().map_err(|_| "bad expr")?).map_err(de),
+                "cu" => d.add_custom_value().map_err(de),
                 "x" => d.add_external(atom(&items[1])?.parse::<usize>().map_err(|_| "bad ext")?).map_err(de),
                 "ty" => d.add_type(type_of_name(atom(&items[1])?).ok_or("bad type")?).map_err(de),
                 "cl" => {
